@@ -169,7 +169,7 @@ LawCountPartition ==
 LawPlainIsEq ==
     (Done /\ F = "COUNTIF" /\ res.t = "num")
     => /\ (A[2].t = "txt" /\ OpPrefix(A[2].v) = "") => res = Count(A[1], Txt(<<61>> \o A[2].v))
-       /\ (A[2].t = "num" /\ NumToText(A[2]).t = "txt") => res = Count(A[1], Txt(<<61>> \o NumToText(A[2]).v))
+       /\ (A[2].t = "num" /\ SafeNum(A[2]) /\ NumToText(A[2]).t = "txt") => res = Count(A[1], Txt(<<61>> \o NumToText(A[2]).v))
 
 \* text is matched case-insensitively (operand and cells)
 LawCaseInsensitive ==
